@@ -86,7 +86,7 @@ Proof.
 Qed.
 
 Lemma enc32_full_blocks k : forall vs g, (128 * k <= length vs)%nat ->
-  blocks (k + g) vs = enc32_full k vs ++ blocks g (skipn (128 * k) vs).
+  blocks (k + g) vs = enc32_full k vs (blocks g (skipn (128 * k) vs)).
 Proof.
   induction k as [|k IH]; intros vs g H.
   - reflexivity.
@@ -94,7 +94,7 @@ Proof.
     change (S k + g)%nat with (S (k + g)). rewrite blocks_cons by exact Hne.
     cbn [enc32_full]. rewrite encode_block32_blk by (rewrite firstn_length; lia).
     rewrite (IH (skipn 128 vs) g) by (rewrite skipn_length; lia).
-    rewrite skipn_skipn'. rewrite <- app_assoc.
+    rewrite skipn_skipn'.
     replace (128 * S k)%nat with (128 + 128 * k)%nat by lia. reflexivity.
 Qed.
 
@@ -351,7 +351,7 @@ Proof.
   intros Hne Hv. cbv zeta. unfold encode32_meta. cbv zeta.
   assert (0 < N.of_nat (length vs)) by (destruct vs; [congruence|cbn [length]; lia]).
   destruct (N.of_nat (length vs) =? 0) eqn:E; [lia|].
-  cbn [m_count m_encodedBytes m_blockCount m_lastBlockSize m_maxBitWidth].
+  cbn [m_count m_encodedBytes m_blockCount m_lastBlockSize m_maxBitWidth]. rewrite nlen_eq.
   set (n := N.of_nat (length vs)) in *.
   repeat split.
   - destruct (0 <? n mod 128) eqn:F; lia.
